@@ -1,4 +1,5 @@
 #!/bin/bash
+# usage: [BENIGN=1|all] seedall_par.sh [K] [filter-regex]   (BENIGN=all: every benign variant is run through ALL 20 checks)
 # usage: seedall_par.sh [K] [filter-regex] — replay every stored seeded change, own mutant revert and (with BENIGN=1) benign variant in K parallel
 # own-cache clones of /verif at HEAD (committed state!). Each change is applied to a scratch copy of /repo (never /repo itself).
 # Output: one line per change: OK (reported) / MISSED / NOAPPLY for seeds and reverts; SILENT / FALSE-ALARM for benign variants.
@@ -15,11 +16,12 @@ done
 worker() {
   i=$1; source /tmp/vf/rp$i/env.sh; cd /tmp/vf/rp$i/verif
   awk -v k=$K -v i=$i 'NR % k == i % k' $LIST | while read kind prop patch name; do
-    out=$(VC_MAX=60 bash tools/variantcheck.sh /verif/$patch $prop 2>&1)
+    props=$prop; [ $kind = benign ] && [ "$BENIGN" = all ] && props="C01 C02 C03 C04 C05 C06 C07 C08 C09 C10 C11 C12 C13 C14 C15 C16 C17 C18 C19 C20"
+    out=$(VC_MAX=60 bash tools/variantcheck.sh /verif/$patch $props 2>&1)
     mkdir -p /tmp/vf/replay_out; echo "$out" > /tmp/vf/replay_out/$kind-$name.txt
     if echo "$out" | grep -q "patch does not apply"; then echo "NOAPPLY $kind $name";
     elif echo "$out" | grep -q "INFRA"; then echo "INFRA   $kind $name";
-    elif echo "$out" | grep -q "^VIOLATION"; then [ $kind = benign ] && echo "FALSE-ALARM $name: $(echo "$out" | grep 'violation:' | cut -c1-160 | head -3 | tr '\n' ';')" || echo "OK      $kind $name";
+    elif echo "$out" | grep -q "^VIOLATION"; then [ $kind = benign ] && echo "FALSE-ALARM $name: $(echo "$out" | grep 'violation:' | cut -c1-160 | head -4 | tr '\n' ';')" || echo "OK      $kind $name";
     else [ $kind = benign ] && echo "SILENT  $name" || echo "MISSED  $kind $name"; fi
   done
 }
